@@ -14,9 +14,12 @@ def stateAfter (p : Program) (ops : List Op) : St :=
   | .ok (_, s) => s
   | .error _ => {}
 
-theorem stateAfter_inv {p : Program} (wf : WF p) (np : NoProj p) (ops : List Op) :
+theorem NoProj.over {p : Program} (np : NoProj p) : NoProjOverProj p :=
+  fun k d hp hk => absurd hk (np k d hp)
+
+theorem stateAfter_inv {p : Program} (wf : WF p) (pf : NoProjOverProj p) (ops : List Op) :
     Inv p (stateAfter p ops) := by
-  have h := runOps_spec wf np ops {} (Inv.init p)
+  have h := runOps_spec wf pf ops {} (Inv.init p)
   unfold stateAfter
   cases hr : runOps p ops {} with
   | error e => exact Inv.init p
@@ -165,13 +168,41 @@ def exFS : St := stateAfter exF [.sess [.set 0 1, .set 1 5], .round [5], .sess [
 /-- … or after a session that changes the firewall -/
 def exFU : St := stateAfter exF [.sess [.set 0 1, .set 1 5], .round [5], .sess [.set 0 0]]
 
-theorem exFT_inv : Inv exF exFT := stateAfter_inv exF_wf exF_noProj _
-theorem exFS_inv : Inv exF exFS := stateAfter_inv exF_wf exF_noProj _
-theorem exFU_inv : Inv exF exFU := stateAfter_inv exF_wf exF_noProj _
+theorem exFT_inv : Inv exF exFT := stateAfter_inv exF_wf exF_noProj.over _
+theorem exFS_inv : Inv exF exFS := stateAfter_inv exF_wf exF_noProj.over _
+theorem exFU_inv : Inv exF exFU := stateAfter_inv exF_wf exF_noProj.over _
 
 /-- `exA` after the dependency of key 5 switched to firewall 4 and firewall 4's input changed -/
 def exAS : St := stateAfter exA [.sess [.set 0 0, .set 1 7, .set 2 7], .round [6], .sess [.set 0 1], .round [5],
   .sess [.set 2 8]]
-theorem exAS_inv : Inv exA exAS := stateAfter_inv exA_wf exA_noProj _
+theorem exAS_inv : Inv exA exAS := stateAfter_inv exA_wf exA_noProj.over _
+
+theorem exD_pf : NoProjOverProj exD := by
+  intro k d h hk
+  match k, h with
+  | 0, h | 1, h | 2, h | 4, h | 5, h => simp [exD] at h; subst h; simp at hk
+  | 3, h => simp [exD] at h; subst h; exact ⟨by decide, fun _ => trivial⟩
+  | n + 6, h => simp [exD] at h
+
+theorem exC_pf : NoProjOverProj exC := by
+  intro k d h hk
+  match k, h with
+  | 0, h | 1, h | 2, h | 3, h | 5, h | 6, h => simp [exC] at h; subst h; simp at hk
+  | 4, h =>
+    simp [exC] at h; subst h
+    refine ⟨by decide, fun c => ?_⟩
+    show ProgAll _ (if c = 1 then _ else _)
+    split
+    · exact ⟨by decide, fun _ => trivial⟩
+    · trivial
+  | n + 7, h => simp [exC] at h
+
+/-- `exD` (firewall + projection diamond) after a session that changes the firewall -/
+def exDU : St := stateAfter exD [.sess [.set 0 1, .set 1 5], .round [5], .sess [.set 0 0]]
+theorem exDU_inv : Inv exD exDU := stateAfter_inv exD_wf exD_pf _
+
+/-- `exC` before the last round of the F1c history -/
+def exCS : St := stateAfter exC [.sess [.set 0 0, .set 1 5], .round [6], .sess [.set 0 1], .round [6], .sess [.set 1 6]]
+theorem exCS_inv : Inv exC exCS := stateAfter_inv exC_wf exC_pf _
 
 end Qbice.CoreFw
